@@ -257,7 +257,7 @@ def exhaustive(maxlen):
 
 
 def generate(rng, tier):
-    n = {'quick': 700, 'thorough': 15500, 'search': 300}[tier]
+    n = {'quick': 1200, 'thorough': 20000, 'search': 300}[tier]
     cases = []
     for _ in range(n):
         cases.append(gen_history(rng, tier, malformed=rng.random() < 0.2))
@@ -701,7 +701,8 @@ CLAIM = {
             'for a mapper), read-your-write with the type coercion, fresh again after del_key;add_key (no stale '
             'value even in iterate), operations not addressing j leave every read of j unchanged (any order, '
             'sparse, descending, repeated), iterate = the non-cleared slots in strictly increasing index order, '
-            'add_map never hands out an index present in any map and successive add_map results strictly increase, '
+            'add_map never hands out an index present in any map (histories that do not plant a dict with set()) '
+            'and successive add_map results strictly increase, '
             'iterate_map = the mapped keys in first-insertion order. The model is tied to memory_store.py by '
             'replaying random and small exhaustive histories (directly and through StoreManager/Store/'
             'StateTopology) and comparing every return value inside Coq.',
